@@ -194,8 +194,8 @@ def check_displ(case):
 SUBCHECKS = [
     Sub("trees", check_move, enumerate=enumerate_trees,
         note="all labelled trees 1..6 (quick) / 1..7 (thorough) vertices x every moved atom x two bond tables"),
-    Sub("random", check_move, strategy=lambda tier: random_case(), quick=2000, thorough=40000,
+    Sub("random", check_move, strategy=lambda tier: random_case(), quick=4000, thorough=200000,
         min_share={"cyclic": 0.1}),
-    Sub("displ", check_displ, strategy=lambda tier: displ_case(), quick=2000, thorough=40000,
+    Sub("displ", check_displ, strategy=lambda tier: displ_case(), quick=4000, thorough=200000,
         min_share={"neighbours:1": 0.1, "neighbours:2": 0.1, "neighbours:3": 0.05}),
 ]
